@@ -374,14 +374,15 @@ theorem reply_ends_at_code_line {S : Type} (rl : S → Bytes × S) (fuel : Nat) 
 was closed by the server *and* the server confirmed with 226 on the control
 connection; the body is then exactly the bytes of the data stream, whatever
 their segmentation. -/
-theorem transfer_complete_requires_close_and_226 (dataSegs : List Bytes) (dataEof : Bool)
+theorem transfer_complete_requires_close_and_226 (dataSegs : List Bytes) (dataEnd : DataEnd)
     (fuel : Nat) (ctrl : List Bytes) (body : Bytes) (reply : Reply)
-    (h : readStream dataSegs dataEof fuel ctrl = .complete body reply) :
-    dataEof = true ∧ reply.code = some 226 ∧ body = dataSegs.flatten := by
+    (h : readStream dataSegs dataEnd fuel ctrl = .complete body reply) :
+    dataEnd = .closed ∧ reply.code = some 226 ∧ body = dataSegs.flatten := by
   unfold readStream at h
-  split at h
-  · cases h
-  · rename_i he
+  cases dataEnd with
+  | stillOpen => simp at h
+  | reset => simp at h
+  | closed =>
     simp only at h
     split at h
     · cases h
@@ -389,8 +390,13 @@ theorem transfer_complete_requires_close_and_226 (dataSegs : List Bytes) (dataEo
     · split at h
       · rename_i hc
         cases h
-        exact ⟨by simpa using he, hc, flatMap_chunks_flatten dataSegs⟩
+        exact ⟨rfl, hc, flatMap_chunks_flatten dataSegs⟩
       · cases h
+
+/-- a data connection that is reset (not closed) never yields a completed transfer, whatever the
+server says on the control connection -/
+theorem reset_is_never_complete (dataSegs : List Bytes) (fuel : Nat) (ctrl : List Bytes) :
+    readStream dataSegs .reset fuel ctrl = .err .NetworkError := rfl
 
 /-! ## Non-vacuity: concrete instances meeting the hypotheses -/
 
@@ -398,7 +404,7 @@ example : commandToBytes (lit "RETR") (lit "/a b") = .ok (lit "RETR /a b\r\n") :
 example : commandToBytes (lit "RETR") (lit "/a\r\nDELE x") = .error .ProtocolError := by decide
 example : (readReplySegs 10 [lit "220-hi\r\n22", lit "0 ok\r\nrest"]).flat
     = .ok ⟨some 220, some (lit "hi\r\nok")⟩ (lit "rest") [lit "220-hi\r\n", lit "220 ok\r\n"] := by decide
-example : readStream [lit "ab", lit "c"] true 10 [lit "226 done\r\n"]
+example : readStream [lit "ab", lit "c"] .closed 10 [lit "226 done\r\n"]
     = .complete (lit "abc") ⟨some 226, some (lit "done")⟩ := by decide
 
 end Wpull.Ftp
